@@ -287,5 +287,38 @@ func apiSpecs() []*HarnessSpec {
 			{"L": {1}, "na": {1}, "lensa": {1}, "opta": {16}, "nb": {2}, "lensb": {3}, "optb": {9}, "nops": {3}, "seq": {1, 4, 6, 13, 19, 24, 33, 45, 52, 57}, "lq": {1}}},
 		Thorough: []Grid{{"L": {1}, "na": {2}, "lensa": {3}, "opta": {9, 16}, "nb": {1, 2}, "lensb": {1, 3}, "optb": {16, 2}, "nops": {3}, "seq": rng(0, 63), "lq": {1, 2}}},
 		Note: "all sequences over {Unmarshal(A), Unmarshal(B), Unmarshal(empty), Reset} on one instance: final answers, message and Stat equal a fresh instance that saw only the last operation"})
+	// ---- C07 ----
+	out = append(out, &HarnessSpec{Name: "ver_gate", Pkg: "trie", Property: "C07", Witness: 2,
+		Quick:    []Grid{{"lv": rng(0, 6)}},
+		Thorough: []Grid{{"lv": rng(0, 9)}, {"lv": {16}}},
+		Note:     "the version bytes of the header are symbolic (every string of the listed lengths): real ReadHeader/verStr/vers.IsCompatible/semver.Parse on the symbolic string; not rejected with ErrIncompatible => one of the six compatible versions (+build metadata)"})
+	out = append(out, &HarnessSpec{Name: "trunc", Pkg: "trie", Property: "C07", Witness: 1,
+		Quick:    []Grid{{"layout": {0, 1}, "opt": {16, 9}, "cut": rng(0, 44)}},
+		Thorough: []Grid{{"layout": {0, 1, 2}, "opt": {16, 9, 2, 5}, "cut": rng(0, 44)}},
+		Note:     "every strict prefix (cut 0..len-1) of a valid stream (real header bytes, opaque body) is rejected with an error, without panic, and the codec stub is never handed a partial body"})
+	out = append(out, &HarnessSpec{Name: "failed_load", Pkg: "trie", Property: "C07", Witness: 1,
+		Quick: []Grid{{"n": {2}, "L": {1}, "lens": {3}, "opt": {16, 9}, "kind": {0, 1, 3, 4}, "cut": {0}, "lq": {1}},
+			{"n": {2}, "L": {1}, "lens": {3}, "opt": {9}, "kind": {2}, "cut": {0, 5, 31}, "lq": {1}}},
+		Thorough: []Grid{{"n": {1, 2}, "L": {2}, "lens": rng(0, 8), "opt": optsFew, "kind": {0, 1, 3, 4}, "cut": {0}, "lq": {0, 1, 2}},
+			{"n": {2}, "L": {1}, "lens": {3}, "opt": {9, 16}, "kind": {2}, "cut": rng(0, 32), "lq": {1}}},
+		Note: "an instance holding a symbolic trie answers GetID/searchID/RangeGet/ScanFrom as an empty trie after a rejected load (newer version, unparsable version, cut in header, cut in body, symbolic junk version)"})
+	// ---- C11 ----
+	out = append(out, &HarnessSpec{Name: "l2_nowrite", Pkg: "trie", Property: "C11", Witness: 1,
+		Quick: []Grid{{"n": {0, 1}, "L": {2}, "lens": {0, 1, 2}, "opt": {16, 9}, "enc": {1}, "loaded": {0, 1}, "lq": {1}, "api": rng(0, 6)},
+			{"n": {2}, "L": {2}, "lens": rng(0, 8), "opt": {16, 9}, "enc": {1, 4}, "loaded": {0, 1}, "lq": {2}, "api": {0, 1, 2, 4}},
+			{"n": {2}, "L": {1}, "lens": rng(0, 3), "opt": {9}, "enc": {1}, "loaded": {0, 1}, "lq": {1}, "api": {3, 5, 6}, "alpha": {1}}},
+		Thorough: []Grid{{"n": {0, 1}, "L": {2}, "lens": {0, 1, 2}, "opt": optsDistinct, "enc": {1, 0, 2}, "loaded": {0, 1}, "lq": {0, 1, 2}, "api": rng(0, 6)},
+			{"n": {2}, "L": {2}, "lens": rng(0, 8), "opt": optsDistinct, "enc": {1, 4}, "loaded": {0, 1}, "lq": {1, 2}, "api": {0, 1, 2, 4}},
+			{"n": {3}, "L": {1}, "lens": rng(0, 7), "opt": {16, 9}, "enc": {1}, "loaded": {0, 1}, "lq": {2}, "api": {0, 1, 2, 4}},
+			{"n": {2}, "L": {2}, "lens": rng(0, 8), "opt": {9, 6}, "enc": {1, 2}, "loaded": {0, 1}, "lq": {1, 2}, "api": {3, 5, 6}, "alpha": {1}}},
+		Note: "write-set monitor over every object reachable from the shared *SlimTrie: no read API (Get, GetID, RangeGet, Search, GetI32, Stat, ScanFrom, Marshal, String, NewIter/next) writes to pre-existing shared memory on any path; two interleaved iterators yield what each yields alone"})
+	// ---- C20 ----
+	out = append(out, &HarnessSpec{Name: "l2_alias", Pkg: "trie", Property: "C20", Witness: 1,
+		Quick: []Grid{{"n": {0, 1, 2}, "L": {1}, "lens": rng(0, 3), "opt": optsAll, "part": {0}, "lq": {0}},
+			{"n": {1, 2}, "L": {1}, "lens": rng(0, 3), "opt": {16, 9, 2}, "part": {1, 2}, "lq": {1}}},
+		Thorough: []Grid{{"n": {0, 1, 2}, "L": {2}, "lens": rng(0, 8), "opt": optsAll, "part": {0}, "lq": {0}},
+			{"n": {1, 2}, "L": {2}, "lens": rng(0, 8), "opt": optsDistinct, "part": {1, 2}, "lq": {1, 2}},
+			{"n": {3}, "L": {1}, "lens": rng(0, 7), "opt": {16, 9}, "part": {0, 1, 2}, "lq": {1}}},
+		Note: "NewSlimTrie writes to none of keys/values/opts (monitor + equality); Unmarshal neither writes nor retains the input buffer (monitor, heap reachability with the codec stub aliasing pessimistically, answers unchanged after the buffer is overwritten with symbolic bytes); Marshal output is unreachable from the trie and overwriting it changes nothing"})
 	return out
 }
